@@ -839,3 +839,143 @@ def check_C10(ctx, rep):
     rep.assumptions += ['the framework-wide fraction limits are a sanctioned coupling (reads of the global counters in the limit predicates)',
                         'shared blocking state reported by the integrator is a sanctioned coupling']
     return 'inventory of shared writes and index uses in the per-machine step functions; delivery completeness of global events'
+
+
+# =================================================================== C06
+
+def check_C06(ctx, rep):
+    prog, an = ctx.prog, ctx.an
+    rep.rule('C06.R1', 'the transition vector is selected by Event::to_usize(event), the same function State::new uses to store it; '
+             'an empty slot returns None')
+    rep.rule('C06.R2', 'the draw is Rng::gen_range on the half-open Range 0.0..1.0 (constants), drawn once, outside the loop')
+    rep.rule('C06.R3', 'in the loop over the whole vector the running sum (initially 0.0) is increased by the current element\'s '
+             'probability BEFORE the strict comparison r < sum, and the value returned on its true edge is the target of that same element')
+    rep.rule('C06.R4', 'every other path (vector exhausted, no vector) returns None')
+    fn = prog.fn(FW, 'State', 'sample_state')
+    fa = an.get(fn)
+    pf = an.paths(fn, history=True)
+
+    def slot_ok(e):
+        """e is self.transitions[to_usize(event)]"""
+        for x in walk(e):
+            if isinstance(x, tuple) and x and x[0] == 'idx' and is_field(x[1], 'transitions', 'State') and root_of(x[1]) == ('param', 1):
+                ix = x[2]
+                return is_call(ix, 'Event::to_usize') and ix[2][0] in (('refv', ('param', 2)), ('param', 2), ('ref', ('local', 2)))
+        return False
+    # the draw
+    draws = [(b, f, args, t) for (b, f, args, t) in calls(fa) if callee_decl(f).endswith('Rng::gen_range')]
+    rep.count_exact('C06.R2', 'gen_range calls in sample_state', len(draws), 1)
+    loops = fa.cfg.loops()
+    rv = None
+    for (b, f, args, t) in draws:
+        rng_arg, range_arg = args[0], args[1]
+        ok = range_arg[0] == 'agg' and (range_arg[1].endswith('ops::Range') or range_arg[1].endswith('range::Range')) and not range_arg[1].endswith('RangeInclusive')
+        if ok:
+            d = dict(range_arg[3])
+            ok = is_const(d.get('start'), 0.0) and is_const(d.get('end'), 1.0) and d['start'][1] in ('f32', 'f64')
+        rep.ob('C06.R2', fn, 'half-open-unit-range', ok, 'gen_range(%s)' % show(range_arg))
+        rep.ob('C06.R2', fn, 'draw-from-caller-rng', rng_arg == ('param', 3), 'rng = %s' % show(rng_arg))
+        rep.ob('C06.R2', fn, 'draw-outside-loop', not any(b in body for body in loops.values()), '')
+        rv = fa.call_value(t, (b, len(fa.blocks[b]['s'])))
+    if rv is None:
+        return ''
+    # the loop and its element
+    nexts = [(b, f, args, t) for (b, f, args, t) in calls(fa) if callee_str(f).endswith('Iterator>::next') or callee_decl(f).endswith('Iterator::next')]
+    rep.count_exact('C06.R3', 'iterator next() sites', len(nexts), 1)
+    for (b, f, args, t) in nexts:
+        it = args[0]
+        # receiver is &mut local iter; its definition chain: into_iter(iter(view(vector)))
+        itl = it[1][1] if it[0] == 'ref' and it[1][0] == 'local' else None
+        okc = False
+        if itl is not None:
+            dv = [fa.def_value(itl, bb, kk) for (bb, kk, part) in fa.defs().get(itl, [])]
+            if len(dv) == 1:
+                x = dv[0]
+                depth = 0
+                while is_call(x, 'into_iter') and depth < 3:
+                    x = x[2][0]
+                    depth += 1
+                okc = is_call(x, '<impl [T]>::iter') and slot_ok(x)
+        rep.ob('C06.R3', fn, 'iterates-whole-selected-vector', okc, 'iterator = %s' % (shape(dv[0]) if itl is not None and dv else '?'))
+    # comparisons
+    cmps = []
+    for (b, e) in switch_conditions(fa):
+        if e[0] == 'bin' and e[1] in ('Lt', 'Gt', 'Le', 'Ge') and (strip_sites(rv) in (strip_sites(e[2]), strip_sites(e[3]))):
+            cmps.append((b, e))
+    rep.count_exact('C06.R3', 'comparisons of the draw', len(cmps), 1)
+    for (b, e) in cmps:
+        op = e[1]
+        l, r = e[2], e[3]
+        if op == 'Gt':
+            op, l, r = 'Lt', r, l
+        ok = op == 'Lt' and strip_sites(l) == strip_sites(rv)
+        rep.ob('C06.R3', fn, 'strict-less-than', ok, 'compares %s' % shape(e))
+        s = r
+        oks = s[0] == 'bin' and s[1] == 'Add' and s[4] == 'f32' or (s[0] == 'bin' and s[1] == 'Add')
+        elem = None
+        if oks:
+            prev, inc = s[2], s[3]
+            incu = unload(inc)
+            oks = incu[0] == 'fld' and incu[3] == '1' and 'Trans' in incu[2]
+            if oks:
+                elem = incu[1]
+                # prev is the running sum: 0.0 initially, or the previous sum
+                alts = prev[1] if prev[0] == 'phi' else (prev,)
+                oks = all(is_const(a, 0.0) or a[0] == 'rec' or (a[0] == 'bin' and a[1] == 'Add') for a in alts) and any(is_const(a, 0.0) for a in alts)
+        rep.ob('C06.R3', fn, 'sum-updated-before-compare-with-current-probability', bool(oks), 'sum = %s' % shape(s))
+        # the element is the payload of next()
+        oke = elem is not None and contains(elem, lambda x: is_call(x, 'Iterator>::next') or is_call(x, 'Iterator::next'))
+        rep.ob('C06.R3', fn, 'probability-of-current-element', oke, '')
+        # the true edge returns Some(elem.0)
+        true_t = None
+        t = fa.blocks[b]['t']
+        for (y, lab) in fa.cfg.succ[b]:
+            facts = pf.edge_facts(b, lab)
+            if any(f[0] == 'cmp' and f[5] is True for f in facts):
+                true_t = y
+        got = False
+        for (rb, rk, v) in ret_defs(fa):
+            if true_t is not None and fa.cfg.dominates(true_t, rb):
+                got = True
+                okr = v[0] == 'agg' and v[2] == 'Some'
+                if okr:
+                    tv = unload(dict(v[3])['0'])
+                    okr = tv[0] == 'fld' and tv[3] == '0' and 'Trans' in tv[2] and elem is not None and strip_sites(tv[1]) == strip_sites(elem)
+                rep.ob('C06.R3', fn, 'returns-target-of-same-element', okr, 'returns %s' % shape(v))
+        rep.ob('C06.R3', fn, 'true-edge-returns', got, '')
+        # sum local writers
+    # R4/R1 returns
+    for (rb, rk, v) in ret_defs(fa):
+        if v[0] == 'agg' and v[2] == 'None':
+            for S in pf.at(rb, rk):
+                no_vec = any(f[0] == 'variant' and f[2] == 'None' and slot_ok(f[1]) for f in S)
+                exhausted = any(f[0] == 'variant' and f[2] == 'None' and contains(f[1], lambda x: is_call(x, 'Iterator>::next') or is_call(x, 'Iterator::next')) for f in S)
+                rep.ob('C06.R4', fn, 'None-only-when-no-vector-or-exhausted', no_vec or exhausted, '' if (no_vec or exhausted) else show_facts(S))
+        elif v[0] == 'agg' and v[2] == 'Some':
+            for S in pf.at(rb, rk):
+                hit = any(f[0] == 'cmp' and f[1] == 'lt' and f[5] is True and strip_sites(rv) == f[2] for f in S)
+                rep.ob('C06.R3', fn, 'Some-only-on-hit', hit, '')
+        else:
+            rep.ob('C06.R4', fn, 'return-shape', False, 'returns %s' % shape(v))
+    # the selected slot: Some edge leads to the loop
+    sel = [f for (b, e) in switch_conditions(fa) if e[0] == 'discr' and slot_ok(e[1]) for f in [b]]
+    rep.ob('C06.R1', fn, 'slot-selected-by-to_usize', len(sel) == 1, 'switches on transitions[to_usize(event)]: %d' % len(sel))
+    # writer side: State::new
+    nw = prog.fn(FW, 'State', 'new')
+    na = an.get(nw)
+    w_ok = False
+    for (pe, v, site, mp) in stores(na):
+        for x in walk(pe):
+            if isinstance(x, tuple) and x and x[0] == 'idx' and is_call(x[2], 'Event::to_usize'):
+                w_ok = True
+    rep.ob('C06.R1', nw, 'writer-indexes-by-to_usize', w_ok, 'State::new stores vectors at transitions[event.to_usize()]')
+    tu = prog.fn(FW, 'Event', 'to_usize')
+    ta = an.get(tu)
+    rv2 = [v for (b, k, v) in ret_defs(ta)]
+    okt = len(rv2) == 1 and rv2[0][0] == 'cast' and rv2[0][3][0] == 'discr'
+    rep.ob('C06.R1', tu, 'to_usize-is-discriminant', okt, 'returns %s' % (shape(rv2[0]) if rv2 else '?'))
+    n_ev = len(prog.variants('maybenot::event::Event'))
+    rep.ob('C06.R1', 'constants', 'EVENT_NUM-equals-variants', int(prog.const_val('maybenot::constants::EVENT_NUM')) == n_ev, 'EVENT_NUM vs %d Event variants' % n_ev)
+    rep.assumptions += ['the measure of each target over the draw values (f32 sums, rand float generation) is not decided',
+                        'probabilities are validated by C12']
+    return 'sampling skeleton of State::sample_state: selection, half-open draw, update-before-compare order, strictness, target identity, residual None'
